@@ -557,6 +557,121 @@ Section TableFacts.
     - split; [reflexivity|]. split; [auto|discriminate].
   Qed.
 
+  (** ** How a table may change in one step *)
+
+  (** the replacement rule between two states of a table: a stored route that
+      shares its slot with a route stored before (same key) is that route or
+      is newer than it *)
+  Definition rule1 t t' : Prop :=
+    forall k x y, stored t k x -> stored t' k y -> same x y = true -> y = x \/ newer y x = true.
+
+  (** additions only: the rule holds and no slot is vacated *)
+  Definition grow t t' : Prop :=
+    rule1 t t' /\ forall k x, stored t k x -> exists y, stored t' k y /\ same x y = true.
+
+  (** removals only: every stored route was stored before, unchanged *)
+  Definition shrink t t' : Prop := forall k y, stored t' k y -> stored t k y.
+
+  Lemma newer_trans : forall x y z, newer y x = true -> newer z y = true -> newer z x = true.
+  Proof.
+    unfold newer. intros x y z H1 H2.
+    apply orb_true_iff in H1, H2. apply orb_true_iff.
+    rewrite !andb_true_iff, !N.ltb_lt, !N.eqb_eq in *. lia.
+  Qed.
+
+  Lemma grow_refl : forall t, table_inv t -> grow t t.
+  Proof.
+    intros t Hinv. split.
+    - intros k x y Hx Hy Hs. left. symmetry.
+      destruct (tget_ok t k Hinv) as (_ & Hu & _).
+      eapply (slots_unique_same_eq same same_sym); eauto.
+    - intros k x Hx. exists x. split; [assumption|apply same_refl].
+  Qed.
+
+  Lemma grow_trans : forall t1 t2 t3, grow t1 t2 -> grow t2 t3 -> grow t1 t3.
+  Proof.
+    intros t1 t2 t3 [R12 E12] [R23 E23]. split.
+    - intros k x z Hx Hz Hs.
+      destruct (E12 k x Hx) as (y & Hy & Hxy).
+      assert (Hyz : same y z = true) by (apply same_trans with x; [rewrite same_sym; assumption|assumption]).
+      destruct (R12 k x y Hx Hy Hxy) as [E1|N1]; destruct (R23 k y z Hy Hz Hyz) as [E2|N2].
+      + left. congruence.
+      + right. rewrite <- E1. exact N2.
+      + right. rewrite E2. exact N1.
+      + right. eapply newer_trans; eauto.
+    - intros k x Hx. destruct (E12 k x Hx) as (y & Hy & Hxy). destruct (E23 k y Hy) as (z & Hz & Hyz).
+      exists z. split; [assumption|]. eapply same_trans; eauto.
+  Qed.
+
+  Lemma shrink_refl : forall t, shrink t t.
+  Proof. intros t k y H. exact H. Qed.
+
+  Lemma shrink_trans : forall t1 t2 t3, shrink t1 t2 -> shrink t2 t3 -> shrink t1 t3.
+  Proof. intros t1 t2 t3 H1 H2 k y H. apply H1. now apply H2. Qed.
+
+  Lemma shrink_rule1 : forall t t', table_inv t -> shrink t t' -> rule1 t t'.
+  Proof.
+    intros t t' Hinv Hs k x y Hx Hy Hxy. left. symmetry.
+    destruct (tget_ok t k Hinv) as (_ & Hu & _).
+    eapply (slots_unique_same_eq same same_sym); eauto. now apply Hs.
+  Qed.
+
+  Lemma tadd_grow : forall t k r t' ok, table_inv t ->
+    tadd keqb same k r t = (t', ok) -> grow t t'.
+  Proof.
+    intros t k r t' ok Hinv H.
+    destruct (tadd_get t k r t' ok (proj1 Hinv) H) as (Hother & Hfalse & Htrue).
+    destruct ok.
+    - destruct (Htrue eq_refl) as (b0 & Hput & Hget). clear Hfalse Htrue.
+      destruct (tget_ok t k Hinv) as (_ & Hu & _).
+      split.
+      + intros k' x y Hx Hy Hs. unfold stored in *.
+        destruct (keqb k' k) eqn:E.
+        * apply keqb_spec in E. subst k'. rewrite Hget in Hy.
+          apply (Permutation_in _ (isort_perm b0)) in Hy.
+          eapply (bucket_put_rule same same_sym same_trans); eauto.
+        * assert (k' <> k) by (intros ->; rewrite keqb_refl in E; discriminate).
+          rewrite (Hother k' H0) in Hy. left. symmetry.
+          destruct (tget_ok t k' Hinv) as (_ & Hu' & _).
+          eapply (slots_unique_same_eq same same_sym); eauto.
+      + intros k' x Hx. unfold stored in *.
+        destruct (keqb k' k) eqn:E.
+        * apply keqb_spec in E. subst k'. rewrite Hget.
+          destruct (same x r) eqn:Er.
+          -- exists r. split; [|assumption].
+             apply (Permutation_in _ (Permutation_sym (isort_perm b0))).
+             apply (bucket_put_in_iff same same_sym same_trans _ _ _ _ Hu Hput). now left.
+          -- exists x. split; [|apply same_refl].
+             apply (Permutation_in _ (Permutation_sym (isort_perm b0))).
+             apply (bucket_put_in_iff same same_sym same_trans _ _ _ _ Hu Hput). right. now split.
+        * assert (k' <> k) by (intros ->; rewrite keqb_refl in E; discriminate).
+          exists x. split; [now rewrite (Hother k' H0)|apply same_refl].
+    - destruct (Hfalse eq_refl) as [-> _]. now apply grow_refl.
+  Qed.
+
+  Lemma tremove_shrink : forall t k o t' ok, keys_nodup t ->
+    tremove keqb k o t = (t', ok) -> shrink t t'.
+  Proof.
+    intros t k o t' ok Hn H.
+    destruct (tremove_get t k o t' ok Hn H) as (Hother & Hfalse & Htrue).
+    destruct ok.
+    - destruct (Htrue eq_refl) as (b0 & Hrem & Hget).
+      intros k' y Hy. unfold stored in *.
+      destruct (keqb k' k) eqn:E.
+      + apply keqb_spec in E. subst k'. rewrite Hget in Hy.
+        destruct (bucket_remove_spec _ _ _ Hrem) as (b1 & x & b2 & Hb & -> & _).
+        rewrite Hb. apply in_app_or in Hy. apply in_or_app. destruct Hy; [left|right; right]; assumption.
+      + assert (k' <> k) by (intros ->; rewrite keqb_refl in E; discriminate).
+        now rewrite <- (Hother k' H0).
+    - destruct (Hfalse eq_refl) as [-> _]. apply shrink_refl.
+  Qed.
+
+  Lemma tfilter_shrink : forall f t, keys_nodup t -> shrink t (tfilter f t).
+  Proof.
+    intros f t Hn k y Hy. unfold stored in *. rewrite (tget_tfilter f t k Hn) in Hy.
+    apply filter_In in Hy. tauto.
+  Qed.
+
   (** keyed lookup: nothing iff nothing stored; otherwise a stored route of
       lowest metric *)
   Lemma tlookup_spec : forall t k, table_inv t ->
@@ -572,3 +687,75 @@ Section TableFacts.
     - split; [now left|]. intros x Hx. eapply msorted_head_min; eauto.
   Qed.
 End TableFacts.
+
+(* ------------------------------------------------------------------ *)
+(** * The longest-prefix scan *)
+
+Section Scan.
+  Context {K D : Type}.
+  Variable d_contains : D -> addr -> bool.
+  Variable d_ones : D -> N.
+  Implicit Types (t : table K D) (best : option (entry D)).
+
+  (** what the scan over the buckets returns, for any starting [best] *)
+  Lemma lpm_scan_spec : forall t a best,
+    match lpm_scan d_contains d_ones t a best with
+    | None => best = None /\
+              forall k f b, In (k, f :: b) t -> d_contains (e_data f) a = false
+    | Some r =>
+        (best = Some r \/ (exists k b, In (k, r :: b) t /\ d_contains (e_data r) a = true)) /\
+        (forall bb, best = Some bb -> d_ones (e_data bb) <= d_ones (e_data r)) /\
+        (forall k f b, In (k, f :: b) t -> d_contains (e_data f) a = true ->
+                       d_ones (e_data f) <= d_ones (e_data r))
+    end.
+  Proof.
+    induction t as [|[k0 [|f0 b0]] t IH]; intros a best; simpl.
+    - destruct best as [r|].
+      + split; [now left|]. split; [intros bb H; inversion H; subst; lia|]. intros k f b [].
+      + split; [reflexivity|]. intros k f b [].
+    - specialize (IH a best).
+      destruct (lpm_scan d_contains d_ones t a best) as [r|].
+      + destruct IH as (H1 & H2 & H3). split.
+        * destruct H1 as [H1|(k & b & Hin & Hc)]; [now left|right; exists k, b; split; [now right|assumption]].
+        * split; [assumption|]. intros k f b [Heq|Hin]; [inversion Heq|now apply (H3 k f b)].
+      + destruct IH as (H1 & H2). split; [assumption|].
+        intros k f b [Heq|Hin]; [inversion Heq|now apply (H2 k f b)].
+    - destruct (d_contains (e_data f0) a) eqn:Ec.
+      + destruct best as [bb|].
+        * destruct (d_ones (e_data bb) <? d_ones (e_data f0)) eqn:El.
+          -- apply N.ltb_lt in El. specialize (IH a (Some f0)).
+             destruct (lpm_scan d_contains d_ones t a (Some f0)) as [r|].
+             ++ destruct IH as (H1 & H2 & H3). split.
+                ** right. destruct H1 as [H1|(k & b & Hin & Hc)].
+                   --- inversion H1; subst. exists k0, b0. split; [now left|assumption].
+                   --- exists k, b. split; [now right|assumption].
+                ** split.
+                   --- intros bb' H; inversion H; subst. specialize (H2 f0 eq_refl). lia.
+                   --- intros k f b [Heq|Hin] Hc; [inversion Heq; subst; now apply H2|now apply (H3 k f b)].
+             ++ destruct IH as [H _]. discriminate.
+          -- apply N.ltb_ge in El. specialize (IH a (Some bb)).
+             destruct (lpm_scan d_contains d_ones t a (Some bb)) as [r|].
+             ++ destruct IH as (H1 & H2 & H3). split.
+                ** destruct H1 as [H1|(k & b & Hin & Hc)]; [now left|right; exists k, b; split; [now right|assumption]].
+                ** split; [assumption|].
+                   intros k f b [Heq|Hin] Hc; [inversion Heq; subst; specialize (H2 bb eq_refl); lia|now apply (H3 k f b)].
+             ++ destruct IH as [H _]. discriminate.
+        * specialize (IH a (Some f0)).
+          destruct (lpm_scan d_contains d_ones t a (Some f0)) as [r|].
+          -- destruct IH as (H1 & H2 & H3). split.
+             ++ right. destruct H1 as [H1|(k & b & Hin & Hc)].
+                ** inversion H1; subst. exists k0, b0. split; [now left|assumption].
+                ** exists k, b. split; [now right|assumption].
+             ++ split; [intros bb H; discriminate|].
+                intros k f b [Heq|Hin] Hc; [inversion Heq; subst; now apply H2|now apply (H3 k f b)].
+          -- destruct IH as [H _]. discriminate.
+      + specialize (IH a best).
+        destruct (lpm_scan d_contains d_ones t a best) as [r|].
+        * destruct IH as (H1 & H2 & H3). split.
+          -- destruct H1 as [H1|(k & b & Hin & Hc)]; [now left|right; exists k, b; split; [now right|assumption]].
+          -- split; [assumption|].
+             intros k f b [Heq|Hin] Hc; [inversion Heq; subst; congruence|now apply (H3 k f b)].
+        * destruct IH as (H1 & H2). split; [assumption|].
+          intros k f b [Heq|Hin]; [inversion Heq; subst; assumption|now apply (H2 k f b)].
+  Qed.
+End Scan.
